@@ -70,5 +70,8 @@ example : (Src.dump_float (.f32 0x7fc00001)).bind (Src.parse_float (floatOf .flo
 example : (Src.dump_enum C20.exCls 7).bind (fun j => match j with
     | some j => (Src.parse_enum C20.exCls j).bind (fun p => .ok (p.1.name, p.1.number)) | none => .raise .value)
     = .ok (none, 7) := by decide
+/-- the hypotheses of `src_enum_json_roundtrip` -/
+example : NamesNodup C20.exD = true ∧ C20.Reach C20.exD C20.exCls.st := ⟨by decide, C20.reach_mk _⟩
+example : durMinUs ≤ -1500000 ∧ (-1500000 : Int) ≤ durMaxUs := by decide
 
 end Bp.C04
